@@ -237,7 +237,7 @@ def small_scope(deck, contracts, part, c: Counter):
         c.inc('small_deals')
 
 
-def play_units(tier: str, seed: int):
+def play_units(tier: str, seed: int, tag: str = 'C04'):
     us = []
     pairs = [(f'{1 + (i % 7)}{dn}', SEATS[(i + j + seed) % 4]) for i, dn in enumerate(PX.DENOMS) for j in range(4)]
     if tier == 'quick':
@@ -247,8 +247,9 @@ def play_units(tier: str, seed: int):
         for i, (bid, decl) in enumerate(pairs):
             for k in range(3):
                 us.append(('dev', bid, decl, seed * 31 + k, 1))
-        for i, (bid, decl) in enumerate(pairs[::4]):
-            us.append(('dev', bid, decl, seed * 31 + 7, 2))
+        if tag in ('C04', 'C11'):          # two departures per play-out only with the cheaper oracle profiles
+            for i, (bid, decl) in enumerate(pairs[::4]):
+                us.append(('dev', bid, decl, seed * 31 + 7, 2))
     # complete-suit deal: ruffs on every trick, 13-0 results
     one = {s: frozenset(range(i * 13, i * 13 + 13)) for i, s in enumerate(SEATS)}
     us += [('dev', '7S', 'W', one, 1), ('dev', '1NT', 'N', one, 1), ('dev', '2C', 'E', one, 1)]
@@ -269,7 +270,7 @@ def run_play(tag: str, tier: str, seed: int, workers: int):
     """The shared L3 exploration with the oracle profile of the property asked for (the cheap oracles of the other three
     properties that remain active are evaluated as well, but only `tag` violations are reported by the caller)."""
     PX.set_opts(thin=(tier == 'quick'), **PROFILE[tag])
-    us = play_units(tier, seed)
+    us = play_units(tier, seed, tag)
     cs = pmap(l3_unit, us, workers)
     return merge_all(cs)
 
@@ -317,7 +318,7 @@ def coverage(tot: Counter, tier: str, tag: str) -> dict:
                 ' x 5 denominations x declarers through PlayingPhase.play_card; 35 bids x 4 declarers x 3 doubling states for the role derivation.  L2: BFS over (trick number, leader, NS, EW) with '
                 'a menu of trick shapes (high card, discard of a higher off-suit card, ruff, over-ruff, trump lead) x 4 winner positions, 20 contracts.  L3: PlayingPhaseWithHands + 4 ObservedPlayingPhase '
                 'in lock-step with the reference model: every play-out with <= d departures from "lowest legal card" (any other held card, revokes included), d = 1 on 20 denomination/declarer pairs '
-                '(+ d = 2 thorough) and on the complete-suit deal; small scope: all 2520 deals of 2 cards per seat from an 8-card deck x all 16 play orders; faults (out of turn, card not held, card already '
+                '(+ d = 2 thorough, in the C04 and C11 runs) and on the complete-suit deal; small scope: all 2520 deals of 2 cards per seat from an 8-card deck x all 16 play orders; faults (out of turn, card not held, card already '
                 'played, play after the end) injected around every departure and at every position of the default line.',
         'samples': [{'L1': 'trick (SA, H2, S2, D2) in 1H led by E -> won by position 1'}, {'L2': '1H by N, state (trick 5, leader W, NS 1, EW 3), shape overruff-w2'},
                     {'L3': '3H by S, deal seed 0, departure at position 17: card index 4 of the hand (a revoke)'}],
